@@ -173,12 +173,38 @@ func (r *QueryResponse) ResponseCh() <-chan NodeResponse {
 	return r.respCh
 }
 
-// sendResponse sends a response on the response channel ensuring the channel is not closed.
+// errDuplicateQueryReply is returned by sendResponse and sendAck when the
+// sender's reply of that kind has already been delivered.
+var errDuplicateQueryReply = errors.New("serf: duplicate query reply")
+
+// seenResponse tells if a response from the given node has been delivered.
+func (r *QueryResponse) seenResponse(from string) bool {
+	r.closeLock.Lock()
+	defer r.closeLock.Unlock()
+	_, ok := r.responses[from]
+	return ok
+}
+
+// seenAck tells if an ack from the given node has been delivered.
+func (r *QueryResponse) seenAck(from string) bool {
+	r.closeLock.Lock()
+	defer r.closeLock.Unlock()
+	_, ok := r.acks[from]
+	return ok
+}
+
+// sendResponse sends a response on the response channel ensuring the channel is not closed
+// and that the sender's response has not been delivered before. Replies can be handled
+// concurrently (memberlist runs a goroutine per stream connection), so the duplicate test
+// and the delivery are one step.
 func (r *QueryResponse) sendResponse(nr NodeResponse) error {
 	r.closeLock.Lock()
 	defer r.closeLock.Unlock()
 	if r.closed {
 		return nil
+	}
+	if _, ok := r.responses[nr.From]; ok {
+		return errDuplicateQueryReply
 	}
 	select {
 	case r.respCh <- nr:
@@ -189,12 +215,16 @@ func (r *QueryResponse) sendResponse(nr NodeResponse) error {
 	return nil
 }
 
-// sendResponse sends a response on the response channel ensuring the channel is not closed.
+// sendAck sends an ack on the ack channel ensuring the channel is not closed
+// and that the sender's ack has not been delivered before.
 func (r *QueryResponse) sendAck(nr *messageQueryResponse) error {
 	r.closeLock.Lock()
 	defer r.closeLock.Unlock()
 	if r.closed {
 		return nil
+	}
+	if _, ok := r.acks[nr.From]; ok {
+		return errDuplicateQueryReply
 	}
 	select {
 	case r.ackCh <- nr.From:
